@@ -81,3 +81,45 @@ Qed.
 Theorem lr1_valid_textbook i gamma it x : lr1_valid g i gamma it x <-> lr1_valid_tb g i gamma it x.
 Proof. apply tb_equal. intros; eapply lr0_has_lookahead; eauto. Qed.
 End Inhabited.
+
+(* ---------- nullable_sym / first_sym against the derivations of Gram/Derive.v ---------- *)
+Scheme derives_ind3 := Minimality for derives Sort Prop
+  with derives_seq_ind3 := Minimality for derives_seq Sort Prop.
+Combined Scheme derives_mutind3 from derives_ind3, derives_seq_ind3.
+
+(* X =>* a w (terminal string) puts a into FIRST(X); X =>* empty makes X nullable *)
+Lemma derives_first_nullable g :
+  (forall X w, derives g X w ->
+     (w = [] -> nullable_sym g X) /\ (forall a w', w = a :: w' -> first_sym g X a)) /\
+  (forall xs w, derives_seq g xs w ->
+     (w = [] -> nullable_seq g xs) /\ (forall a w', w = a :: w' -> first_seq_of g xs a)).
+Proof.
+  apply derives_mutind3.
+  - intros a Ha. split; [discriminate|]. intros b w' [= <- _]. constructor. exact Ha.
+  - intros r w Hr _ [IH1 IH2]. split.
+    + intros E. constructor; auto.
+    + intros a w' E. destruct (IH2 a w' E) as (pre & x & post & Erhs & Hpre & Hx). eapply fs_rule; eauto.
+  - split; [constructor|discriminate].
+  - intros x xs w1 w2 _ [IHx1 IHx2] _ [IHs1 IHs2]. split.
+    + intros E. apply app_eq_nil in E. destruct E as [-> ->]. constructor; auto.
+    + intros a w' E. destruct w1 as [|b w1'].
+      * simpl in E. apply first_seq_of_cons_nullable; [apply IHx1; reflexivity|eapply IHs2; eauto].
+      * simpl in E. injection E as -> _. apply first_seq_of_head. eapply IHx2; reflexivity.
+Qed.
+
+Lemma nullable_derives g :
+  (forall X, nullable_sym g X -> derives g X []) /\ (forall xs, nullable_seq g xs -> derives_seq g xs []).
+Proof.
+  apply nullable_mutind.
+  - intros r Hr _ IH. constructor; auto.
+  - constructor.
+  - intros x xs _ IH1 _ IH2. change (@nil Z) with (@nil Z ++ @nil Z). constructor; auto.
+Qed.
+
+Theorem nullable_sym_iff_derives g X : nullable_sym g X <-> derives g X [].
+Proof.
+  split; [apply nullable_derives|]. intros H. apply (proj1 (derives_first_nullable g) X [] H). reflexivity.
+Qed.
+
+Theorem first_sym_of_derivation g X a w : derives g X (a :: w) -> first_sym g X a.
+Proof. intros H. eapply (proj1 (derives_first_nullable g) X (a :: w) H). reflexivity. Qed.
